@@ -828,4 +828,13 @@ def run(tier, seed):
                     replay=make_replay_threads(cls, src, va, vb, other, k, who, clause, witness))
     B.note("two threads: %d schedules run (%d tasks, %d suspension points in all)" % (
         sum(t[1] for t in tres), len(tres), npoints))
+    # ---- nested objects from several modules (bounded/c20_mods.py) --------------------
+    from bounded import c20_mods
+    c20_mods.extend(B, tier, seed)
+    B.bound += ("; FAMILY MM (bounded/c20_mods.py): object trees of 2-3%s nodes (nested value, list items, nested in "
+                "nested, positional constructor) x every assignment of %d throw-away modules (top-level modules, "
+                "sub-modules of one package%s; same class names in every module) to the nodes, script_repr() and "
+                "pprint(imports=lst, qualify=True) text run in a FRESH namespace with only its own import lines"
+                % (("" if tier == "quick" else "-4"), len(c20_mods.QUICK_MODS if tier == "quick" else c20_mods.MODULES),
+                   ("" if tier == "quick" else ", a module three levels deep, a second package")))
     return B.result()
